@@ -478,7 +478,15 @@ func r14e(c *core.Ctx) {
 			c.Bad("readLoop-deadline", rl.Pos(), rl, "the read loop sets a read deadline", "no SetReadDeadline")
 		} else {
 			e := core.Expr(dl.Common().Args[0])
-			c.Check(e == "time.Now().Add(c.t.connIdleTimeout())", "readLoop-deadline-value", dl.Pos(), rl, "the read deadline is now + the transport's idle time-out", e)
+			okV := false
+			if d, isNP := nowPlus(dl.Common().Args[0]); isNP {
+				if dc, isCall := d.(*ssa.Call); isCall {
+					if f := core.StaticCallee(dc); f != nil && strings.HasSuffix(core.FuncName(f), "PipelineTransport).connIdleTimeout") {
+						okV = true
+					}
+				}
+			}
+			c.Check(okV, "readLoop-deadline-value", dl.Pos(), rl, "the read deadline is now + the transport's idle time-out", e)
 			// it precedes every read in the loop body
 			okAll := true
 			n := 0
@@ -502,7 +510,13 @@ func r14e(c *core.Ctx) {
 		for _, call := range core.Calls(exc) {
 			if call.Common().IsInvoke() && call.Common().Method.Name() == "SetDeadline" {
 				e := core.Expr(call.Common().Args[0])
-				c.Check(e == "time.Now().Add(phi(6000000000|t.testRespTimeout))", "exchangeConn-deadline-value", call.Pos(), exc, "the one-shot exchange deadline is now + 6 s (test override aside)", e)
+				okV := false
+				if d, isNP := nowPlus(call.Common().Args[0]); isNP {
+					lv := valueLeaves(c, d)
+					e = "time.Now().Add{" + strings.Join(lv, ", ") + "}"
+					okV = len(lv) == 2 && lv[0] == "const:6000000000" && lv[1] == "field:ReuseConnTransport.testRespTimeout"
+				}
+				c.Check(okV, "exchangeConn-deadline-value", call.Pos(), exc, "the one-shot exchange deadline is now + 6 s (test override aside)", e)
 			}
 		}
 	}
